@@ -15,6 +15,12 @@ import sys
 
 repo, mods = sys.argv[1], sys.argv[2:]
 sys.path.insert(0, repo)
+import os
+
+if os.environ.get("VERIF_DECOY_PATH"):
+    # a LATER sys.path entry that also has something called chartparse (an older installed release, a stub): the
+    # tree at sys.path[0] is the one a client gets
+    sys.path.append(os.environ["VERIF_DECOY_PATH"])
 results = []
 for m in mods:
     try:
@@ -32,7 +38,10 @@ for m in mods:
             bound = importlib.import_module(name)
             pkg, _, leaf = name.rpartition(".")
         real = sys.modules.get(name)
-        if bound is not real or getattr(bound, "__name__", None) != name:
+        origin = getattr(real, "__file__", None) or ""
+        if os.environ.get("VERIF_DECOY_PATH") and origin.startswith(os.environ["VERIF_DECOY_PATH"]):
+            results.append([m, "WrongOrigin: %s was loaded from %s, a later sys.path entry, not from the tree at sys.path[0]" % (name, origin)])
+        elif bound is not real or getattr(bound, "__name__", None) != name:
             results.append([m, "WrongObject: the client's name is bound to %r, not to the module %s" % (getattr(bound, "__name__", bound), name)])
         elif pkg and getattr(sys.modules.get(pkg), leaf, None) is not real:
             results.append([m, "WrongObject: attribute %s of package %s is %r, not the module %s" % (leaf, pkg, getattr(getattr(sys.modules.get(pkg), leaf, None), "__name__", None), name)])
